@@ -816,9 +816,14 @@ func c09Run(in *bufio.Scanner, w *bufio.Writer) {
 			if st.setx {
 				c09s.hook(th)
 			}
-		case "inc.fetched":
+		case "del.acquired":
 			if st.setx {
 				c09s.hook(th)
+			}
+			return
+		case "inc.fetched":
+			if st.setx {
+				c09s.hookKind(th, "pinc")
 				return
 			}
 			if st.stopAt.Load().(string) != th {
@@ -833,6 +838,12 @@ func c09Run(in *bufio.Scanner, w *bufio.Writer) {
 			}
 			fallthrough
 		case "inc.acquired", "inc.read", "inc.written", "inc.saved":
+			if st.setx {
+				if nm == "inc.acquired" {
+					c09s.hookKind(th, "inchold")
+				}
+				return
+			}
 			t := st.get(th)
 			if t == nil {
 				return
